@@ -80,10 +80,13 @@ package crypto
 // exactly the concatenation of the peer's payload chunks old(decryptCount) .. decryptCount-1, in order; any frame that is
 // not the peer's next frame makes the call fail and nothing is released.
 //@ func (s *secureSession) Decrypt(r) (out, err)
-//@   requires s != nil && r != nil && seq(s.decryptKey) == dkey()
+//@   refines "github.com/brutella/hc/crypto.Decrypter.Decrypt"
+//@   requires s != nil && r != nil
+//@   requires key: seq(s.decryptKey) == dkey()
 //@   assume nowrap
 //@   modifies s.decryptCount, stream(r)
-//@   ensures genuine: err == nil ==> out != nil && stream(out) == pcat(old(s.decryptCount), s.decryptCount) && s.decryptCount >= old(s.decryptCount)
+//@   ensures genuine: err == nil ==> out != nil && fresh(out) && typeis(out, "*bytes.Buffer") && stream(out) == pcat(old(s.decryptCount), s.decryptCount)
+//@   ensures count: s.decryptCount >= old(s.decryptCount)
 //@   ensures nothing: err != nil ==> out == nil
 //@   ensures key: seq(s.decryptKey) == dkey()
 //   round trip (C06): if the reader holds the encoding of any payload rtP() (an arbitrary constant) under this key and
@@ -105,7 +108,15 @@ package crypto
 //@   ensures ok: err == nil && out != nil && fresh(out)
 //@   ensures wire: stream(out) == enc_pre(enckey(e), old(enccnt(e)), old(stream(r)), (len(old(stream(r))) + 1023) / 1024)
 //@   ensures count: enccnt(e) == old(enccnt(e)) + (len(old(stream(r))) + 1023) / 1024 && enckey(e) == old(enckey(e))
+// a decrypter seen through its interface: deckey(d) / deccnt(d) abstract the read key and the number of frames accepted
+//@ ghost deckey(ref) seq
+//@ ghost deccnt(ref) int
+//@ abstraction deckey(s) = seq(s.decryptKey)
+//@ abstraction deccnt(s) = s.decryptCount
 //@ invoke "github.com/brutella/hc/crypto.Decrypter.Decrypt"(d, r) (out, err)
 //@   requires r != nil
-//@   modifies *d, stream(r)
+//@   requires key: deckey(d) == dkey()
+//@   modifies *d, deccnt(d), stream(r)
 //@   ensures err != nil ==> out == nil
+//@   ensures genuine: err == nil ==> out != nil && fresh(out) && typeis(out, "*bytes.Buffer") && stream(out) == pcat(old(deccnt(d)), deccnt(d))
+//@   ensures count: deccnt(d) >= old(deccnt(d)) && deckey(d) == old(deckey(d))
